@@ -101,7 +101,8 @@ def check(tier, seed):
         for loc, summ in races(se):
             allraces[loc] = allraces.get(loc, 0) + 1
             if loc not in EXEMPT:
-                viol = (scen, "unsynchronised access to shared memory: %s (%s)" % (loc, summ)); break
+                rep = next((r for r in se.split("WARNING: ThreadSanitizer:")[1:] if not any(e in r for e in EXEMPT)), "")
+                viol = (scen, "unsynchronised access to shared memory: %s (%s)\n%s" % (loc, summ, rep[:6000])); break
         if viol: break
         # the error-location record is the one shared variable the property exempts: its content is not compared
         noloc = lambda ls: [re.sub(r" line=\d+ file=\S+", "", l) for l in ls]
@@ -118,7 +119,7 @@ def check(tier, seed):
     if viol or not ps["ok"]:
         if viol:
             scen, det = viol
-            body = "# property C18\n# %s\n# one block per thread; replay: ./check C18 --replay <file>\n" % det.replace("\n", " ")
+            body = "# property C18\n# %s\n# one block per thread; replay: ./check C18 --replay <file>\n" % det.replace("\n", "\n# ")
             for i, c in enumerate(scen): body += "thread %d\n" % i + "\n".join(c) + "\n"
             p = vlib.write_replay(pid, "violation-seed%d.case" % seed, body)
             print("VIOLATION property=%s replay=%s" % (pid, p))
